@@ -696,10 +696,16 @@ class World(object):
         c = self.conns.get(cid)
         if c is not None and c.held_msgs:
             # commands that were in flight (delayed) arrive together with this one
-            msgs = c.held_msgs + list(msgs)
+            held = c.held_msgs
             c.held_msgs = []
-            kind = "batch"
             self.count("fault_delayed_delivery")
+            if all(isinstance(m, dict) and "type" in m for m in msgs):
+                msgs = held + list(msgs)
+                kind = "batch"
+            else:
+                # a command without type gets no ack: keep it in an event of its own so
+                # that every frame can be attributed to its command
+                self.send(cid, held, step=step, kind="batch" if len(held) > 1 else "send")
         ev = self.begin(kind, step=step, conn=cid, msg=msgs[0] if len(msgs) == 1 else None)
         if len(msgs) != 1:
             ev.sends = list(msgs)
